@@ -214,6 +214,7 @@ fn gen_value(c: &mut Ctx, i: usize) -> i64 {
         5 => match i {
             YEAR | IYEAR => gen_year(c) as i64,
             YDIV | IDIV => *c.rng.pick(&[0i64, 19, 20, 99, 100, 2621, 2622, 21474836, 21474837, -1]),
+            YMOD | IMOD => *c.rng.pick(&[0i64, 68, 69, 70, 71, 99]),
             TS => *c.rng.pick(&[
                 0i64, -1, 1, 86399, 86400, -86400, 8210266876799, 8210266876800, -8334601228800, -8334601228801, 8210266790400,
                 -8334601142400, 1_700_000_000, 951782400, 68256000, i64::MAX - 86399, i64::MIN + 86399,
@@ -385,6 +386,8 @@ struct Case {
     real: Option<(NaiveDateTime, i32)>,
     mask: [bool; NF],
     class: &'static str,
+    /// offset to resolve with when there is no unperturbed real value
+    hint: Option<i32>,
 }
 
 fn run_case(c: &mut Ctx, case: &Case, offs: &[i32]) {
@@ -398,6 +401,25 @@ fn run_case(c: &mut Ctx, case: &Case, offs: &[i32]) {
     let sd = show(rd.clone(), |d| yof(d).to_string());
     c.op(&format!("pr.date {}", dump), &sd);
     c.count(&format!("date:{}:{}", cl, kind_of(&sd)));
+    {
+        // which combination the resolver is expected to pick (first applicable, by field presence)
+        let has_y = f[YEAR].is_some() || f[YMOD].is_some();
+        let has_iy = f[IYEAR].is_some() || f[IMOD].is_some();
+        let arm = if has_y && f[MONTH].is_some() && f[DAY].is_some() {
+            "ymd"
+        } else if has_y && f[ORD].is_some() {
+            "yo"
+        } else if has_y && f[WSUN].is_some() && f[WDAY].is_some() {
+            "week-sun"
+        } else if has_y && f[WMON].is_some() && f[WDAY].is_some() {
+            "week-mon"
+        } else if has_iy && f[IWEEK].is_some() && f[WDAY].is_some() {
+            "iso"
+        } else {
+            "none"
+        };
+        c.count(&format!("date:arm:{}:{}", arm, kind_of(&sd)));
+    }
     if let Ok(Ok(d)) = &rd {
         if let Some(w) = date_agrees(f, d) {
             c.fail("to_naive_date result contradicts a supplied field", &format!("field {} of [{}] -> {}", w, dump, d));
@@ -592,7 +614,13 @@ fn run_case(c: &mut Ctx, case: &Case, offs: &[i32]) {
 /// are zero where the mask omits the field (so that the fields describe the value completely)
 fn gen_real(c: &mut Ctx, m: &[bool; NF]) -> (NaiveDateTime, i32) {
     loop {
-        let d = gen_date(c);
+        let d = if c.rng.chance(1, 6) {
+            // around the two-digit-year pivot and the century seams
+            let y = *c.rng.pick(&[1969i32, 1970, 2069, 2070, 1999, 2000, 1900, 2100, 99, 100, 0, -1]);
+            NaiveDate::from_yo_opt(y, c.rng.range(1, 365) as u32).unwrap()
+        } else {
+            gen_date(c)
+        };
         let mut secs = gen_secs(c);
         let mut nano = gen_nano(c);
         if !m[SEC] {
@@ -788,9 +816,13 @@ pub fn run(c: &mut Ctx) {
                 .clamp(tlo, thi);
                 f[i] = Some(nv);
                 let unchanged = old == Some(nv) || (i == WDAY && old.map(|v| v.rem_euclid(7)) == Some(nv.rem_euclid(7)));
-                Case { f, real: None, mask, class: if unchanged { "derived-same" } else { "perturbed" } }
+                Case { f, real: None, mask, class: if unchanged { "derived-same" } else { "perturbed" }, hint: if c.rng.chance(1, 2) { Some(off) } else { None } }
+            } else if l.time().nanosecond() >= 1_000_000_000 && f[TS].is_some() && c.rng.chance(1, 2) {
+                // a leap second may also carry the timestamp of the following second
+                f[TS] = f[TS].map(|v| v + 1);
+                Case { f, real: None, mask, class: "derived-leap-plus-one", hint: Some(off) }
             } else {
-                Case { f, real: Some((l, off)), mask, class: "derived" }
+                Case { f, real: Some((l, off)), mask, class: "derived", hint: None }
             }
         } else {
             // ---- independent random values ----
@@ -817,10 +849,10 @@ pub fn run(c: &mut Ctx) {
                     });
                 }
             }
-            Case { f, real: None, mask: m, class: if directed { "random-small" } else { "random" } }
+            Case { f, real: None, mask: m, class: if directed { "random-small" } else { "random" }, hint: None }
         };
         c.count(&format!("fields:{:02}", case.f.iter().filter(|x| x.is_some()).count()));
-        let offs = offsets_for(c, case.real.map(|r| r.1));
+        let offs = offsets_for(c, case.real.map(|r| r.1).or(case.hint));
         run_case(c, &case, &offs);
         if k < 4 {
             c.sample(&format!("{} [{}] -> date {}", case.class, dump_parsed(&build(&case.f)), show(guard(|| build(&case.f).to_naive_date()), |d| d.to_string())));
